@@ -12,6 +12,7 @@ import LolHtml.Lemmas.EncFeed
 import LolHtml.Lemmas.EncUtf8
 import LolHtml.Lemmas.EncEncoder
 import LolHtml.Lemmas.EncResync
+import LolHtml.Lemmas.EncScan
 import LolHtml.Lemmas.EncMeta
 
 namespace LolHtml.Enc
@@ -162,6 +163,18 @@ theorem C13_resync_safe (st : Resync) (parts : List Bytes) (r : WriteRes)
     | .error _ => ∃ rest, st.buf ++ parts.flatten = r.flushed.flatten ++ rest :=
   writeAll_safe parts st r h
 
+/-- **C13_resync (rejection).** If every write of a sequence succeeded and nothing is left buffered
+(`discard_incomplete` would return `false`), then the bytes written were well-formed UTF-8 and were
+flushed completely.  Contrapositive: malformed input is always rejected — by an `Err` from some write or
+by the pending-tail check — and by `C13_resync_safe` none of its malformed part was emitted. -/
+theorem C13_resync_rejects (parts : List Bytes) (r : WriteRes) (st' : Resync)
+    (h : writeAll Resync.new parts = some r) (hok : r.res = .ok st') (hbuf : st'.buf = []) :
+    (Utf8.scan parts.flatten).fin = .done ∧ r.flushed.flatten = parts.flatten := by
+  obtain ⟨h1, h2⟩ := C13_resync_safe Resync.new parts r h
+  simp only [hok, hbuf, Resync.new, List.nil_append, List.append_nil] at h2
+  rw [h2]
+  exact ⟨Utf8.scan_flatten_done _ (fun f hf => (h1 f hf).2), rfl⟩
+
 theorem C13_resync_total (st : Resync) (content : Bytes) :
     (writeUtf8Chunk st content).isSome = true := writeUtf8Chunk_total st content
 
@@ -172,6 +185,15 @@ the lane (`resync` cases, every split incl. one byte at a time) and the examples
 def C13_resync_reassembles_statement : Prop :=
   ∀ (s : List Char) (parts : List Bytes), parts.flatten = Utf8.encode s →
     ∃ fl, writeAll Resync.new parts = some ⟨fl, .ok Resync.new⟩ ∧ fl.flatten = Utf8.encode s
+
+/-- **C13_resync_reassembles_partial.** The proved part of the liveness statement: every split whose
+pieces are themselves well-formed (cuts on character boundaries, empty pieces allowed) is accepted, passed
+through piece by piece, and leaves nothing buffered.  Missing for the full statement: cuts *inside* a
+character (the buffered branch of `utf8_bytes_to_slice`). -/
+theorem C13_resync_reassembles_partial (parts : List Bytes)
+    (h : ∀ p ∈ parts, (Utf8.scan p).fin = .done) :
+    writeAll Resync.new parts = some ⟨parts.filter (fun p => !p.isEmpty), .ok Resync.new⟩ :=
+  writeAll_valid_parts parts h
 
 /-- `"€🐈"` one byte at a time; and E2 82 | 41 rejected with nothing emitted. -/
 example : (writeAll Resync.new [[0xE2], [0x82], [0xAC], [0xF0], [0x9F], [0x90], [0x88]]).map (·.flushed)
